@@ -10,13 +10,13 @@
    hypothesis [late (fst c) = false] says that no fetch_add returned an index < B on a block not
    reachable from tail (the ghost flag is set by exactly that event and never reset); for model
    runs of a case this is [known_class c = None] (C05_conservation_on_model_runs).
-   STILL NOT PROVED (see level_note): C05_spec_ok_on_model in full (that the trace-level checker
-   spec_ok accepts every model run outside the class); what IS proved about spec_ok is in sections
-   (8) and (9) (C05_spec_ok_sound, C05_spec_ok_on_model_partial and its clauses).              *)
+   PROVED (section 13): C05_spec_ok_on_model, the trace-level checker spec_ok accepts every model
+   run outside the class; its meaning and its clauses are in sections
+   (8) and (9) (C05_spec_ok_sound, C05_spec_clauses_on_model_every_case and its clauses).              *)
 From Coq Require Import List NArith Bool Arith Permutation Lia.
 Import ListNotations.
 Require Import MV.Common.Interleave MV.C05.Model MV.C05.Spec MV.C05.Exec.
-Require Import MV.C05.ProofsSeq MV.C05.ProofsInv MV.C05.ProofsCor MV.C05.ProofsUniq MV.C05.ProofsCons MV.C05.ProofsProg MV.C05.ProofsSnap MV.C05.ProofsEmpty MV.C05.ProofsOrder MV.C05.ProofsSpec MV.C05.ProofsTrace1 MV.C05.ProofsTrace2 MV.C05.ProofsTrace3 MV.C05.ProofsTrace4 MV.C05.ProofsTrace5 MV.C05.ProofsTrace6 MV.C05.ProofsTrace7 MV.C05.ProofsTrace8 MV.C05.ProofsTrace9 MV.C05.ProofsTrace10 MV.C05.ProofsTrace11 MV.C05.ProofsTrace12.
+Require Import MV.C05.ProofsSeq MV.C05.ProofsInv MV.C05.ProofsCor MV.C05.ProofsUniq MV.C05.ProofsCons MV.C05.ProofsProg MV.C05.ProofsSnap MV.C05.ProofsEmpty MV.C05.ProofsOrder MV.C05.ProofsSpec MV.C05.ProofsTrace1 MV.C05.ProofsTrace2 MV.C05.ProofsTrace3 MV.C05.ProofsTrace4 MV.C05.ProofsTrace5 MV.C05.ProofsTrace6 MV.C05.ProofsTrace7 MV.C05.ProofsTrace8 MV.C05.ProofsTrace9 MV.C05.ProofsTrace10 MV.C05.ProofsTrace11 MV.C05.ProofsTrace12 MV.C05.ProofsTrace13 MV.C05.ProofsTrace14 MV.C05.ProofsTrace15.
 Local Open Scope nat_scope.
 
 (* (1) complete calls, run one after the other by any threads, are exactly the bag operations:
@@ -317,18 +317,12 @@ Proof. exact no_double_clear_on_model. Qed.
 
 (* (9) the checker on the model: clauses of Spec.spec_run proved of the model's own run of EVERY case
    (every schedule, round-robin tail included; no known-class hypothesis needed for these).
-   FULL STATEMENT NOT PROVED:
-     C05_spec_ok_on_model : forall c, known_class c = None -> spec_ok c (run_case c) = true.
-   Proved: S0 (no anomaly; results shaped like the programs), S1 for the threads (no identity handed
-   to clears twice; no single read handed an identity twice), S2 for the slices handed to the
-   threads' callbacks (each has its 506 position; every value is in the push table with a slot-write
-   position strictly earlier: written-before-read and no fabrication on trace positions).
-   Missing: S1/S2/S4 for the FINAL sequential read (final_data runs a fresh thread on the final
-   shared state; not analysed), S4 (claim positions increase along a slice), S3 (snapshot /
-   is_empty completeness on positions, needs done) and S5 (pushes = cleared + final, needs done and
-   known_class = None): the configuration-level theorems exist (C05_block_order,
-   C05_snapshot_sees_completed, C05_is_empty_sound, C05_conservation_except_late_claim) but are not
-   yet connected to the position tables of the checker. *)
+   The full statement, C05_spec_ok_on_model : forall c, known_class c = None -> spec_ok c (run_case c) = true,
+   is proved in section (13).  In this section: S0 (no anomaly; results shaped like the programs), S1
+   for the threads (no identity handed to clears twice; no single read handed an identity twice), S2
+   for the slices handed to the threads' callbacks (each has its 506 position; every value is in the
+   push table with a slot-write position strictly earlier: written-before-read and no fabrication on
+   trace positions).  The final read and S4 are in section (10), S5 in (11), S3 in (12)-(13). *)
 Theorem C05_spec_shape_on_model : forall c : case,
   let '(_, rss, _, _, _) := run_case c in all2 follows (progs_of c) rss = true.
 Proof. exact spec_shape_on_model. Qed.
@@ -345,20 +339,6 @@ Theorem C05_spec_reads_no_dup_on_model : forall c : case,
   forallb (fun rc => nodupb (handed rc)) (rcalls tr 0 rss) = true.
 Proof. exact spec_reads_no_dup_on_model. Qed.
 
-Theorem C05_spec_ok_on_model_partial : forall c : case,
-  let '(tr, rss, done, final, anom) := run_case c in
-  anom = 0%N /\ all2 follows (progs_of c) rss = true /\
-  nodupb (flat_map handed (filter is_clear (rcalls tr 0 rss))) = true /\
-  forallb (fun rc => nodupb (handed rc)) (rcalls tr 0 rss) = true /\
-  forallb (fun rc => forallb (fun qs => slice_genuine (pinfos tr 0 (progs_of c)) (fst qs) (snd qs) &&
-                                         match fst qs with Some _ => true | None => false end) (rsl rc))
-          (rcalls tr 0 rss) = true.
-Proof.
-  intros c. pose proof (spec_shape_on_model c) as H1. pose proof (no_double_clear_on_model c) as H2.
-  pose proof (spec_reads_no_dup_on_model c) as H3. pose proof (spec_written_before_read_on_model c) as H4.
-  unfold run_case, out_gen in *. destruct (run_gen BS true true c) as [cf tr]. auto.
-Qed.
-
 (* (10) second stage of the checker on the model.
    CORRECTED ORACLE DEFECT: Exec.final_data used to give the final reader a constant 400 rounds of
    fuel, so on a case whose live chain has more than ~133 blocks (8700 pushes) the model's final
@@ -368,8 +348,8 @@ Qed.
    Proved in this stage, on every case: the clauses about the FINAL read that do not depend on it
    having finished (no duplicate, every value in the push table with a slot-write position) and
    clause S4 (claim positions strictly increase along every slice: thread slices and final read).
-   STILL MISSING for the conjunction C05_spec_ok_on_model: only S3 (snapshot / is_empty completeness
-   on trace positions, under done); S5 is C05_spec_conservation_on_model in section (11). *)
+   S3 (snapshot / is_empty completeness on trace positions, under done) is
+   C05_spec_completeness_on_model in section (13); S5 is C05_spec_conservation_on_model in (11). *)
 Theorem C05_oversized_final_read_regression :
   known_class oversized_case = None /\
   (let '(_, rss, done, final, _) := run_case oversized_case in
@@ -389,7 +369,7 @@ Theorem C05_spec_claim_order_on_model : forall c : case,
 Proof. exact spec_claim_order_on_model. Qed.
 
 (* everything of spec_run except S3 and S5, on the model's run of every case *)
-Theorem C05_spec_ok_on_model_partial2 : forall c : case,
+Theorem C05_spec_clauses_on_model_every_case : forall c : case,
   let '(tr, rss, done, final, anom) := run_case c in
   let tbl := pinfos tr 0 (progs_of c) in
   let rc := rcalls tr 0 rss in
@@ -435,12 +415,9 @@ Proof. exact spec_conservation_on_model. Qed.
    the is_empty of the code before the fix - head block and ONE successor - returned true over 64
    completed resident pushes (67-thread witness, reproduced on the real code); the chain-walking
    is_empty returns false on the same schedule and the whole checker accepts the run.
-   NOT PROVED: C05_spec_completeness_on_model (S3 under done) and hence C05_spec_ok_on_model.
-   Proved towards it: the publication column of the push table is tied to the configuration
-   (C05_spec_pub_positions_on_model).  Still missing: the positions of 530 / 520 / 541 and empty_end
-   in the ledger, the alignment of data_with / is_empty / clear_with calls with them, a detach ledger
-   (which 541 detached which block) for the `clears` disjunct of `accounts`, and the use of
-   C05_snapshot_sees_completed / C05_is_empty_sound along the trace. *)
+   S3 itself (C05_spec_completeness_on_model) and the conjunction are proved in section (13); here:
+   the publication column of the push table is tied to the configuration
+   (C05_spec_pub_positions_on_model). *)
 Theorem C05_is_empty_beyond_B_threads_refuted_before_fix :
   length (fst many_case) = 67 /\ known_class many_case = None /\
   (let cf := fst (exec_full (step_lookback1 BS) site rr_fuel (init_config (progs_of many_case)) (map N.to_nat (snd many_case))) in
@@ -519,11 +496,7 @@ Theorem C05_spec_is_empty_false_needs_publication_on_model : forall c : case,
 Proof. exact spec_is_empty_false_needs_publication. Qed.
 
 (* Both is_empty halves of S3 on the model for every case whose programs contain no clear_with.
-   STILL NOT PROVED of S3 (C05_spec_completeness_on_model), and therefore of the conjunction
-   C05_spec_ok_on_model: data_with and is_empty = true calls in cases WITH clears: needs the 541
-   positions, the alignment of clear calls with their `rcas`, and a detach ledger (a block
-   unreachable from tail was detached by a clear whose 541 position lies before the reader's
-   start, or the reader still holds it) for the `clears` disjunct of Spec.accounts. *)
+   (Cases WITH clears: C05_spec_completeness_on_model below.) *)
 Theorem C05_spec_is_empty_completeness_on_model_no_clear : forall c : case,
   (forall p, In p (progs_of c) -> ~ In CClear p) ->
   let '(tr, rss, _, _, _) := run_case c in
@@ -542,16 +515,16 @@ Proof. exact no_clear_not_late. Qed.
 
 (* THE CONJUNCTION for programs without clear_with: the trace-level checker spec_ok accepts the
    model's run of EVERY case whose programs contain no clear_with (such a case is never in the
-   late-claim class, C05_no_clear_not_late_claim): S0, S1, S2, S4 (C05_spec_ok_on_model_partial2),
+   late-claim class, C05_no_clear_not_late_claim): S0, S1, S2, S4 (C05_spec_clauses_on_model_every_case),
    S3 for data_with (C05_spec_snapshot_completeness_on_model_no_clear) and for is_empty
    (C05_spec_is_empty_completeness_on_model_no_clear), S5 (C05_spec_conservation_on_model).
-   C05_spec_ok_on_model in general (cases WITH clears) is still not proved: see above. *)
+   (Special case of C05_spec_ok_on_model below, without the class hypothesis.) *)
 Theorem C05_spec_ok_on_model_no_clear : forall c : case,
   (forall p, In p (progs_of c) -> ~ In CClear p) ->
   spec_ok c (run_case c) = true.
 Proof.
   intros c Hnc. pose proof (C05_no_clear_not_late_claim c Hnc) as Hk.
-  pose proof (C05_spec_ok_on_model_partial2 c) as P. pose proof (C05_spec_conservation_on_model c Hk) as S5.
+  pose proof (C05_spec_clauses_on_model_every_case c) as P. pose proof (C05_spec_conservation_on_model c Hk) as S5.
   pose proof (C05_spec_snapshot_completeness_on_model_no_clear c Hnc) as S30.
   pose proof (C05_spec_is_empty_completeness_on_model_no_clear c Hnc) as S3e.
   unfold spec_ok. destruct (run_case c) as [[[[tr rss] done] final] anom]. cbv zeta in *. unfold spec_run. cbv zeta.
@@ -559,6 +532,53 @@ Proof.
   apply forallb_forall. intros r Hr.
   pose proof (proj1 (forallb_forall _ _) S30 r Hr) as H0. pose proof (proj1 (forallb_forall _ _) S3e r Hr) as H2. cbv beta in H0, H2.
   destruct (rkind r =? 0)%N; [exact H0|]. cbn [orb]. exact H2.
+Qed.
+
+(* Clause S3 of the checker on the model, EVERY case outside the late-claim class, when the run is
+   done: every data_with call and every is_empty = true call accounts for every push whose 503
+   position lies below the call's start - the identity is in the slices handed to the call, or in
+   the `handed` of a clear call whose `rcas` lies below the start; every is_empty = false call has a
+   publication below its last read.
+   Proof (ProofsTrace13-15): the DETACH LEDGER on the trace - a thread inside a clearing walk has its
+   detaching CAS as the last of its 541 positions and all 506 positions of the call above it; a
+   completed clear call that handed out something has a first 506 position q1 and
+   `last_below p541 q1` (= Spec's rcas) is its CAS position (RG_step).  `Att tr c x p`: x is attributed to
+   a clear whose CAS position is below p - pending in a published slot on the clearer's chain, in its
+   accumulator, or in a completed call; Att is stable under every step outside the class (Att_step:
+   at the delivering read 506 the block is complete, K of C05_conservation_except_late_claim, so the
+   pending slot is in the slice) and covers every published slot of a block not reachable from tail
+   (detached: such a block is owned by a clearer or, by K, already delivered).  The snapshot and
+   is_empty invariants of C05_snapshot_sees_completed / C05_is_empty_sound are run along the trace
+   with the obligation set "genuine, 503 position below the start, not attributed below the start":
+   at the start every obligation is reachable from tail (unattributed_reach).  On the finished run an
+   attribution is a clear rcall with that rcas and the identity in its handed (Att_end). *)
+Theorem C05_spec_completeness_on_model : forall c : case, known_class c = None ->
+  let '(tr, rss, done, _, _) := run_case c in
+  done = true ->
+  let tbl := pinfos tr 0 (progs_of c) in
+  let rc := rcalls tr 0 rss in
+  forallb (fun r => if ((rkind r =? 0) || (rkind r =? 2))%N then accounts tbl (filter is_clear rc) (rstart r) (handed r)
+                    else if (rkind r =? 3)%N then existsb (fun i => olt (ppub i) (rend r)) tbl else true) rc = true.
+Proof.
+  intros c Hk. pose proof (spec_snapshot_completeness c Hk) as S0. pose proof (spec_is_empty_true_completeness c Hk) as S2.
+  pose proof (C05_spec_is_empty_false_needs_publication_on_model c) as S3.
+  destruct (run_case c) as [[[[tr rss] done] final] anom]. intros Hd. specialize (S0 Hd). specialize (S2 Hd). cbv zeta in *.
+  apply forallb_forall. intros r Hr.
+  pose proof (proj1 (forallb_forall _ _) S0 r Hr) as H0. pose proof (proj1 (forallb_forall _ _) S2 r Hr) as H2.
+  pose proof (proj1 (forallb_forall _ _) S3 r Hr) as H3. cbv beta in H0, H2, H3.
+  destruct (rkind r =? 0)%N; [exact H0|]. cbn [orb]. destruct (rkind r =? 2)%N; [exact H2|exact H3].
+Qed.
+
+(* THE CONJUNCTION: the trace-level checker spec_ok (S0-S5) accepts the model's run of every case
+   outside the late-claim class.  With C05_spec_ok_sound (what acceptance means) and the
+   correspondence check (the real code's outputs equal the model's on every replayed schedule) this
+   ties the executable property judged on the implementation to the invariants proved on the model. *)
+Theorem C05_spec_ok_on_model : forall c : case, known_class c = None -> spec_ok c (run_case c) = true.
+Proof.
+  intros c Hk. pose proof (C05_spec_clauses_on_model_every_case c) as P. pose proof (C05_spec_conservation_on_model c Hk) as S5.
+  pose proof (C05_spec_completeness_on_model c Hk) as S3.
+  unfold spec_ok. destruct (run_case c) as [[[[tr rss] done] final] anom]. cbv zeta in *. unfold spec_run. cbv zeta.
+  rewrite P. cbn [andb]. destruct done; [|reflexivity]. rewrite (S5 eq_refl), (S3 eq_refl). reflexivity.
 Qed.
 
 (* Block::len must be trailing_ones, not count_ones: in a reachable configuration where a snapshot
